@@ -213,10 +213,19 @@ pub fn eval(ctx: &Ctx, case: &Case) {
                         }
                     }
                     "C1-x>=p" => {
-                        // x + p does not fit for this prime (p > 2^255): use an all-ones x instead
                         for b in &mut ct[1..33] {
                             *b = 0xff;
                         }
+                    }
+                    "C1-x+p-alias" | "C1-y+p-alias" => {
+                        // an unreduced encoding of the same point (v + p still fits in 32 bytes for v < 2^256 - p)
+                        let two256: BigUint = BigUint::one() << 256usize;
+                        let (v, range) = if t == "C1-x+p-alias" { (&x, 1..33) } else { (&y, 33..65) };
+                        if v + &pr.p >= two256 {
+                            ctx.outcome("skipped/alias-does-not-fit");
+                            return;
+                        }
+                        ct[range].copy_from_slice(&cand(&(v + &pr.p)));
                     }
                     "C1-other-valid-point" => ct[1..65].copy_from_slice(&sm9::g1_bytes(&sm9::g1_add(&base.c1, &pr.p1))),
                     "tag=02" => ct[0] = 0x02,
@@ -253,11 +262,12 @@ pub const ANNEX_R: &str = "0000AAC0541779C8FC45E3E2CB25C12B5D2576B2129AE8BB5EE2C
 pub fn run(ctx: &Arc<Ctx>) {
     refmodels::selftest::run(&["sm3", "sm9"]).unwrap_or_else(|e| ctx.machinery_error(format!("reference self-test failed: {}", e)));
     let n = sm9::params().n.clone();
-    ctx.set_rule("encryption: every message length 1..=255 with one (master, identity, r); masters {Annex ke, N-2, seeded} x identities {Bob,'',seeded} x nonces {1,2,N-2,Annex r,2^255+1,seeded} at length 20; the GM/T 0044.5 example: ciphertext = reference C1||C3||C2 byte for byte for the accepted r (MAC = SM3(C2||K2)), library and reference decryptors recover M. Decryption of reference-made ciphertexts (lengths {1,20}, thorough +{32,255}): untouched must decrypt; every single-bit flip, every truncation, extension, over-long bodies, other identity, foreign tags, C1 off-curve with the original body and with the body recomputed for the foreign point (invalid-curve attack, using the library's own pairing), (0,0), unreduced x, another valid point: all must be refused with an error, never a plaintext, never a panic.");
+    ctx.set_rule("encryption: every message length 1..=255 with one (master, identity, r); masters {Annex ke, N-2, seeded} x identities {Bob,'',seeded} x nonces {1,2,N-2,Annex r,2^255+1,seeded} at length 20; the GM/T 0044.5 example: ciphertext = reference C1||C3||C2 byte for byte for the accepted r (MAC = SM3(C2||K2)), library and reference decryptors recover M. Decryption of reference-made ciphertexts (lengths {1,20}, thorough +{32,255}): untouched must decrypt; every single-bit flip, every truncation, extension, over-long bodies, other identity, foreign tags, C1 off-curve with the original body and with the body recomputed for the foreign point (invalid-curve attack, using the library's own pairing), (0,0), unreduced coordinates (all-ones and the v+p aliases of the same point over 12 further nonces), another valid point: all must be refused with an error, never a plaintext, never a panic.");
     let mut g = SplitMix::new(ctx.seed, "c10");
     let mut cases: Vec<Case> = Vec::new();
     cases.push(Case::Enc { ke: ANNEX_KE.into(), id: "Bob".into(), msg_len: 20, r: ANNEX_R.into(), tag: "annex-example".into() });
-    let masters: Vec<(String, BigUint)> = vec![("annex".into(), hb(ANNEX_KE)), ("N-2".into(), &n - 2u32), ("seed".into(), g.nonzero_below(&n))];
+    // ke = H1(Bob||03): Q_B = [H1]P1 + Ppub-e is then a doubling
+    let masters: Vec<(String, BigUint)> = vec![("annex".into(), hb(ANNEX_KE)), ("N-2".into(), &n - 2u32), ("seed".into(), g.nonzero_below(&n)), ("H1(ID)".into(), sm9::h1(b"Bob", sm9::HID_ENC))];
     let rs: Vec<(String, BigUint)> = vec![("1".into(), BigUint::one()), ("2".into(), BigUint::from(2u32)), ("N-2".into(), &n - 2u32), ("annex".into(), hb(ANNEX_R)), ("2^255+1".into(), (BigUint::one() << 255usize) + 1u32), ("seed".into(), g.nonzero_below(&(&n - 2u32)))];
     let nm = ctx.tier.pick(1usize, 3);
     for (mn, ke) in masters.iter().take(nm) {
@@ -279,7 +289,7 @@ pub fn run(ctx: &Arc<Ctx>) {
         let id = ["Bob", "len:40"][bi % 2];
         let r = hexbig(&rs[(bi + 3) % rs.len()].1);
         let total = 97 + l;
-        let mut tampers: Vec<String> = vec!["none", "extended", "mlen-256", "mlen-300", "other-identity", "C1-off-curve(y+1)/orig-body", "C1-off-curve(y+1)/invalid-curve-completed", "C1-off-curve(random)/invalid-curve-completed", "C1=(0,0)", "C1-x>=p", "C1-other-valid-point", "tag=02", "tag=00"].iter().map(|s| s.to_string()).collect();
+        let mut tampers: Vec<String> = vec!["none", "extended", "mlen-256", "mlen-300", "other-identity", "C1-off-curve(y+1)/orig-body", "C1-off-curve(y+1)/invalid-curve-completed", "C1-off-curve(random)/invalid-curve-completed", "C1=(0,0)", "C1-x>=p", "C1-x+p-alias", "C1-y+p-alias", "C1-other-valid-point", "tag=02", "tag=00"].iter().map(|s| s.to_string()).collect();
         for b in 0..total * 8 {
             tampers.push(format!("bit:{}", b));
         }
@@ -288,6 +298,12 @@ pub fn run(ctx: &Arc<Ctx>) {
         }
         for t in tampers {
             cases.push(Case::Dec { ke: hexbig(ke), id: id.into(), msg_len: *l, r: r.clone(), tamper: t });
+        }
+    }
+    for i in 0..12u32 {
+        let r = hexbig(&g.nonzero_below(&(&n - 2u32)));
+        for t in ["none", "C1-x+p-alias", "C1-y+p-alias"] {
+            cases.push(Case::Dec { ke: ANNEX_KE.into(), id: "Bob".into(), msg_len: 5 + i as usize, r: r.clone(), tamper: t.into() });
         }
     }
     ctx.note_bound(format!("{} cases", cases.len()));
